@@ -13,15 +13,26 @@
 (*        may be accepted, but then the result must be the untampered one (same = TRUE).  newfiles = files left in     *)
 (*        the destination of a staged API, outside = files created outside the requested directory.                   *)
 EXTENDS DumpProp, Json
-VARIABLES src, l
+VARIABLES src, ends, l
 TraceLog == ndJsonDeserialize("trace.ndjson")
 Ev == TraceLog[l]
-tvars == <<src, l>>
-TInit == src = <<>> /\ l = 1 /\ TLCSet(1, 0)
-TSrc == Ev.e = "src" /\ src' = Ev.graphs
-TDumped == Ev.e = "dumped" /\ UNCHANGED src /\ Ev.ok /\ Equivalent(Ev.dir, src)
+tvars == <<src, ends, l>>
+TInit == src = <<>> /\ ends = <<>> /\ l = 1 /\ TLCSet(1, 0)
+TSrc == Ev.e = "src" /\ src' = Ev.graphs /\ ends' = (IF "ends" \in DOMAIN Ev THEN Ev.ends ELSE <<>>)
+\* degree histograms by naive computation on the edge list: set of <<degree, number of nodes with that degree>>
+Hist(nodes, deg(_)) == {<<d, Cardinality({n \in nodes : deg(n) = d})>> : d \in {deg(n) : n \in nodes}}
+MetricsDescribe(m, g, es) ==
+   LET nodes == ToSet(g.nodes)
+       InD(n) == Cardinality({i \in DOMAIN es : es[i][2] = n})
+       OutD(n) == Cardinality({i \in DOMAIN es : es[i][1] = n})
+       TotD(n) == InD(n) + OutD(n)
+       Pairs(s) == {<<s[i][1], s[i][2]>> : i \in DOMAIN s}
+   IN /\ m.name = g.name /\ m.nodes = Len(g.nodes) /\ m.edges = Len(g.edges)
+      /\ Pairs(m["in"]) = Hist(nodes, InD) /\ Pairs(m.out) = Hist(nodes, OutD) /\ Pairs(m.total) = Hist(nodes, TotD)
+TDumped == /\ Ev.e = "dumped" /\ UNCHANGED <<src, ends>> /\ Ev.ok /\ Equivalent(Ev.dir, src)
+           /\ (ends # <<>>) => (Len(Ev.metrics) = Len(src) /\ \A i \in DOMAIN src : MetricsDescribe(Ev.metrics[i], src[i], ends[i]))
 Bag(s) == [x \in ToSet(s) |-> Cardinality({i \in DOMAIN s : s[i] = x})]
-TLoaded == /\ Ev.e = "loaded" /\ UNCHANGED src /\ Ev.ok
+TLoaded == /\ Ev.e = "loaded" /\ UNCHANGED <<src, ends>> /\ Ev.ok
            /\ Len(Ev.graphs) = Len(src)
            /\ \A i \in DOMAIN Ev.graphs : LET g == Ev.graphs[i] IN
                  /\ g.name = src[i].name
@@ -31,8 +42,8 @@ TLoaded == /\ Ev.e = "loaded" /\ UNCHANGED src /\ Ev.ok
            /\ Ev.nodewrites = Len(Concat([i \in DOMAIN src |-> src[i].nodes]))
            /\ Ev.relwrites = Len(Concat([i \in DOMAIN src |-> src[i].edges]))
 \* verification succeeds exactly when the graphs match (for edits the manifest's metrics can see)
-TVerify == Ev.e = "verify" /\ UNCHANGED src /\ (Ev.ok <=> Ev.mutation = "none")
-TAttack == /\ Ev.e = "attack" /\ UNCHANGED src
+TVerify == Ev.e = "verify" /\ UNCHANGED <<src, ends>> /\ (Ev.ok <=> Ev.mutation = "none")
+TAttack == /\ Ev.e = "attack" /\ UNCHANGED <<src, ends>>
            /\ Ev.outside = 0                                         \* never a file outside the requested directory
            /\ ~Ev.ok => (Ev.nodewrites = 0 /\ Ev.relwrites = 0)     \* an error means nothing was written to the database
            /\ (~Ev.ok /\ Ev.staged) => Ev.newfiles = 0              \* ... and nothing is left in a staged destination
